@@ -82,6 +82,11 @@ def workflows():
          'stage0.Obs': m(producers=['stage0.S1', 'stage0.S2'], repeat=True)})
     add('xobs-mixed', [comp('P'), comp('S', stage=1), obs('Obs', ['stage0.P:ref', 'S:ref'], stage=1)],
         {'stage0.P': m(), 'stage1.S': m(1), 'stage1.Obs': m(1, ['stage0.P', 'stage1.S'], repeat=True)})
+    # an observer of two producers with the SAME name in different stages (continued components); both listing orders
+    add('xobs-samename', [comp('G'), comp('G', stage=1), obs('Obs', ['stage1.G:ref', 'stage0.G:ref'], stage=1)],
+        {'stage0.G': m(), 'stage1.G': m(1), 'stage1.Obs': m(1, ['stage0.G', 'stage1.G'], repeat=True)})
+    add('xobs-samename-rev', [comp('G'), comp('G', stage=1), obs('Obs', ['stage0.G:ref', 'stage1.G:ref'], stage=1)],
+        {'stage0.G': m(), 'stage1.G': m(1), 'stage1.Obs': m(1, ['stage0.G', 'stage1.G'], repeat=True)})
     add('xreplica-agg', [comp('S', wa={'replicate': 2}), comp('Agg', ['stage0.S:ref'], stage=1, wa={'aggregate': True}),
                          comp('T', ['Agg:ref'], stage=1)],
         {'stage0.S0': m(replica_of='S'), 'stage0.S1': m(replica_of='S'),
@@ -113,6 +118,24 @@ def workflows():
     DOWHILE_EXTRAS['dowhile-same'] = {'extra_files': {'conf/dowhile.yaml': json.dumps(dw)},
                                       'exit_files': {'L': {'cond.txt': ['True', 'True', 'False']}},
                                       'loop': ['stage0.0#L', 'stage0.1#L', 'stage0.2#L']}
+    # a loop of two components: W does the work, K (which consumes from W and may run longer) produces the condition; Q, outside
+    # the loop, consumes from W through the placeholder
+    dw2 = {'type': 'DoWhile', 'inputBindings': {'src': {'type': 'ref'}}, 'loopBindings': {}, 'condition': 'K/cond.txt:output',
+           'components': [{'name': 'W', 'command': {'executable': 'ls', 'arguments': 'src:ref'}, 'references': ['src:ref'],
+                           'resourceManager': {'config': {'backend': 'simulator'}}},
+                          {'name': 'K', 'command': {'executable': 'ls', 'arguments': 'W:ref'}, 'references': ['W:ref'],
+                           'resourceManager': {'config': {'backend': 'simulator'}}}]}
+    W['dowhile2'] = ({'components': [comp('S'), {'name': 'loop', 'stage': 0, '$import': 'dowhile.yaml', 'bindings': {'src': 'S:ref'}},
+                                      comp('Q', ['W:ref'])]},
+                     {'stage0.S': m(), 'stage0.0#W': m(producers=['stage0.S']), 'stage0.0#K': m(producers=['stage0.0#W']),
+                      'stage0.1#W': m(producers=['stage0.S', 'stage0.0#K']), 'stage0.1#K': m(producers=['stage0.1#W']),
+                      'stage0.Q': m(0, ['stage0.0#W', 'stage0.1#W'])})
+    DOWHILE_EXTRAS['dowhile2'] = {'extra_files': {'conf/dowhile.yaml': json.dumps(dw2)},
+                                  'exit_files': {'K': {'cond.txt': ['True', 'False']}}, 'faults_outside_loop_only': True,
+                                  'loop': ['stage0.0#W', 'stage0.0#K', 'stage0.1#W', 'stage0.1#K'],
+                                  'iterations': [['stage0.0#W', 'stage0.0#K'], ['stage0.1#W', 'stage0.1#K']],
+                                  # in the workflow graph the condition component precedes the consumers of the placeholder
+                                  'not_leaves': ['stage0.0#K', 'stage0.1#K']}
     DOWHILE_EXTRAS['dowhile'] = {'extra_files': {'conf/dowhile.yaml': json.dumps(dw)}, 'exit_files': {'L': {'cond.txt': ['True', 'True', 'False']}},
                                  'loop': ['stage0.0#L', 'stage0.1#L', 'stage0.2#L']}
     return W
@@ -138,7 +161,7 @@ def base_name(ref, meta):
 
 
 # ---------------------------------------------------------------------------------------------- reference model
-def reference_outcome(meta, script, attrs, stages_run, loop_nodes=None, start=0):
+def reference_outcome(meta, script, attrs, stages_run, loop_nodes=None, start=0, iterations=None):
     """Independent model of the documented rules (written from the property statement).
 
     script: node -> list of reason labels, consumed one per task execution (last repeats).
@@ -157,8 +180,10 @@ def reference_outcome(meta, script, attrs, stages_run, loop_nodes=None, start=0)
         if meta[n]['stage'] not in stages_run:
             continue
         if n in loop:
-            i = loop.index(n)
-            if i > 0 and state.get(loop[i - 1]) != 'finished':
+            # iterations are instantiated as a whole; the last component of an iteration produces the condition
+            its = iterations or [[x] for x in loop]
+            i = [k for k, it in enumerate(its) if n in it][0]
+            if i > 0 and state.get(its[i - 1][-1]) != 'finished':
                 # the previous iteration did not finish: the loop stops, this iteration is never instantiated
                 state[n] = 'never-instantiated'
                 acceptable[n] = {'never-instantiated'}
@@ -286,6 +311,8 @@ def make_scenarios(tier):
                     assigns.append({a: la, b: lb})
         loop_nodes = DOWHILE_EXTRAS.get(wname, {}).get('loop', [])
         for asg in assigns:
+            if DOWHILE_EXTRAS.get(wname, {}).get('faults_outside_loop_only') and any(n in loop_nodes for n in asg):
+                continue
             if any(n in loop_nodes and l in SHUTDOWN_LABELS for n, l in asg.items()):
                 # what a shut-down loop iteration means for the loop (and its consumers) is not said by the statement
                 continue
@@ -306,6 +333,22 @@ def make_scenarios(tier):
     for wf, lab, dur in TRACE_SCENARIOS:
         for g in TRACE_GROUPS:
             out.append({'wf': wf, 'labels': lab, 'dur': dur, 'trace': TRACE_GROUPS[g], 'group': g})
+    # memoization: the component database offers a past execution for some components; fetching its files works ('hit': the
+    # component finishes without a task) or fails ('fetch-fails': the component must be executed after all)
+    for wf, memos in (('chain2', [{'stage0.A': 'hit'}, {'stage0.B': 'hit'}, {'stage0.A': 'fetch-fails'}, {'stage0.B': 'fetch-fails'},
+                                  {'stage0.A': 'hit', 'stage0.B': 'fetch-fails'}, {'stage0.A': 'fetch-fails', 'stage0.B': 'hit'},
+                                  {'stage0.A': 'hit', 'stage0.B': 'hit'}]),
+                      # (components whose names end in a digit have no memoization hash - known finding of C16 - so the
+                      # workflows with P1/P2/S0/S1 cannot be used here)
+                      ('diamond', [{'stage0.A': 'hit'}, {'stage0.B': 'fetch-fails'}, {'stage0.B': 'hit', 'stage0.C': 'fetch-fails'},
+                                   {'stage0.D': 'fetch-fails'}, {'stage0.B': 'fetch-fails', 'stage0.C': 'fetch-fails'}]),
+                      ('xstage', [{'stage0.A': 'hit'}, {'stage1.B': 'fetch-fails'}])):
+        for memo in memos:
+            out.append({'wf': wf, 'labels': {}, 'dur': {}, 'memo': memo})
+            for n, how in memo.items():
+                if how == 'fetch-fails':
+                    for lab in ('KS', 'KF', 'RS'):
+                        out.append({'wf': wf, 'labels': {n: lab}, 'dur': {}, 'memo': memo})
     # the operator pauses the controller (Controller.sleep) and wakes it up again while notifications arrive; line-level
     # preemption inside wake_up / finishedCheck, with a long stall so that a periodic scheduler pass fits into the window
     for wf, lab, pause in PAUSE_SCENARIOS:
@@ -316,6 +359,9 @@ def make_scenarios(tier):
         for dur in ({}, {'stage1.Q': 40.0}, {'stage1.P': 40.0}):
             out.append({'wf': 'restart3', 'labels': lab, 'dur': dur, 'start': 1})
     out.append({'wf': 'xstage3', 'labels': {}, 'dur': {}, 'start': 1})
+    # the condition component of a loop outlives the looped component whose output is consumed outside the loop
+    for d in (3.0, 8.0):
+        out.append({'wf': 'dowhile2', 'labels': {}, 'dur': {'stage0.0#K': d, 'stage0.1#K': d}})
     # a producer fails while siblings of its stage are still running: the stage drains over several scheduler passes
     for sl in ('KF', 'KS'):
         out.append({'wf': 'xreplica-agg-slow', 'labels': {'stage0.S0': sl}, 'dur': {'stage0.S1': 40.0, 'stage0.X': 40.0}})
@@ -355,6 +401,9 @@ def build(scn):
         if node_attrs.get(b, {}).get('shutdownOn'):
             attrs[n] = {'shutdownOn': ['KnownIssue']}
     doc = attr_variants(doc, node_attrs)
+    for n, how in (scn.get('memo') or {}).items():
+        if how == 'hit':
+            mscript[n] = ['Success']   # its outputs are taken from a past execution: finished without a task of its own
     for n in meta:
         seq = mscript.get(n, ['Success'])
         d = scn['dur'].get(n, 0.0)
@@ -362,7 +411,7 @@ def build(scn):
     stages = sorted({meta[n]['stage'] for n in meta if meta[n]['stage'] >= scn.get('start', 0)})
     ex = DOWHILE_EXTRAS.get(scn['wf'], {})
     return Scenario(doc, script=script, name=scn['wf'], extra_files=ex.get('extra_files'), exit_files=ex.get('exit_files'),
-                    outmode=scn.get('outmode'),
+                    outmode=scn.get('outmode'), memo=scn.get('memo'),
                     stages=(stages if scn.get('start') else None)), meta, mscript, attrs, stages
 
 
@@ -421,7 +470,7 @@ def judge_c01(x, meta, loop_nodes=None):
     return bad
 
 
-def judge_c02(x, meta, mscript, attrs, stages, loop_nodes=None, start=0):
+def judge_c02(x, meta, mscript, attrs, stages, loop_nodes=None, start=0, iterations=None, not_leaves=None):
     bad = []
     ret = x.result.get('ret')
     if ret != 'done':
@@ -430,7 +479,7 @@ def judge_c02(x, meta, mscript, attrs, stages, loop_nodes=None, start=0):
         return bad
     ran = x.result.get('stages', [])
     stages_run = [s for s, _ in ran]
-    acceptable, unrecoverable, failed_nodes = reference_outcome(meta, mscript, attrs, set(stages_run), loop_nodes, start)
+    acceptable, unrecoverable, failed_nodes = reference_outcome(meta, mscript, attrs, set(stages_run), loop_nodes, start, iterations)
     # exactly one final state for every component of the stages that ran
     for n in meta:
         if meta[n]['stage'] not in stages_run:
@@ -467,8 +516,9 @@ def judge_c02(x, meta, mscript, attrs, stages, loop_nodes=None, start=0):
                 bad.append(('no unrecoverable exit but run() of stage %d raised %s' % (s, outcomes[s]), 'C02:spurious-raise:%s' % outcomes[s]))
         last = max(meta[n]['stage'] for n in meta)
         if last in stages_run:
-            leaves = [n for n in meta if meta[n]['stage'] == last and not any(n in meta[c]['producers'] for c in meta)]
-            any_finished = any(x.final[n]['state'] == 'finished' for n in leaves)
+            leaves = [n for n in meta if meta[n]['stage'] == last and not any(n in meta[c]['producers'] for c in meta)
+                      and acceptable.get(n) != {'never-instantiated'} and n not in (not_leaves or ())]
+            any_finished = any(x.final.get(n, {}).get('state') == 'finished' for n in leaves)
             if any_finished and outcomes[last] != 'ok':
                 bad.append(('a leaf of the final stage finished but run() raised %s' % outcomes[last], 'C02:final-stage-verdict'))
             if not any_finished and outcomes[last] != 'FinalStageNoFinishedLeafComponents':
@@ -523,7 +573,9 @@ def run_one(col, which, scn, prefix, remaining, boundary_only=False):
         col.state(fp)
     if x.errors:
         col.count('executions_with_activity_exceptions')
-    bad = judge_c01(x, meta, loop_nodes) if which == 'C01' else judge_c02(x, meta, mscript, attrs, stages, loop_nodes, scn.get('start', 0))
+    bad = judge_c01(x, meta, loop_nodes) if which == 'C01' else judge_c02(x, meta, mscript, attrs, stages, loop_nodes, scn.get('start', 0),
+                                                                            DOWHILE_EXTRAS.get(scn['wf'], {}).get('iterations'),
+                                                                            DOWHILE_EXTRAS.get(scn['wf'], {}).get('not_leaves'))
     for ch in x.extra.get('final_state_changes', []):
         col.count('executions_with_a_change_between_final_states:' + ch)
     outcome = (scn['wf'], x.result.get('ret'), tuple(sorted((n, f.get('state')) for n, f in x.final.items())),
@@ -580,7 +632,7 @@ def select_deep(scns, tier, seed):
 
     def find(wf, labels):
         for s in scns:
-            if s['wf'] == wf and s['labels'] == labels and not s['dur'] and not s.get('trace'):
+            if s['wf'] == wf and s['labels'] == labels and not s['dur'] and not s.get('trace') and not s.get('memo'):
                 return s
         raise HarnessError('core scenario %s %s missing' % (wf, labels))
 
@@ -590,7 +642,7 @@ def select_deep(scns, tier, seed):
               ('xstage', {}), ('chain2', {'stage0.B': 'KF'}), ('chain2', {'stage0.A': 'XS'}), ('xstage', {'stage0.A': 'KS'})]
     if tier == 'thorough':
         for s in scns:
-            if s not in sel and len(s['labels']) <= 1 and not s['dur'] and not s.get('trace'):
+            if s not in sel and len(s['labels']) <= 1 and not s['dur'] and not s.get('trace') and not s.get('memo'):
                 sel.append(s)
     else:
         sel.append(find(*rotate[seed % len(rotate)]))
@@ -633,7 +685,7 @@ def run(ctx, which):
                                              ('fanin', {'stage0.P1': 'KF', 'stage0.P2': 'RS'}, {'stage0.P2': 25.0003}),
                                              ('xreplica-agg-slow', {'stage0.S0': 'KF'}, {'stage0.S1': 40.0, 'stage0.X': 40.0})]
     for wf, labels, dur in (races if not only else []):
-        sc = [x for x in scns if x['wf'] == wf and x['labels'] == labels and x['dur'] == dur and not x.get('trace')]
+        sc = [x for x in scns if x['wf'] == wf and x['labels'] == labels and x['dur'] == dur and not x.get('trace') and not x.get('memo')]
         if not sc:
             continue
         nrace += 1
